@@ -47,6 +47,7 @@ func main() {
 	files := flag.String("files", "", "comma separated files relative to /repo")
 	base := flag.String("base", os.Getenv("VERIF_OVERLAY"), "base overlay (deliberate changes under test)")
 	extra := flag.String("extra", "", "extra virtual files dst=src (dst relative to /repo)")
+	region := flag.String("region", "", "comma separated file:Func whose body is wrapped in verifrt.RegionEnter()/RegionExit()")
 	stmt := flag.String("stmt", "", "comma separated subset of -files that additionally gets a scheduling point before every statement")
 	flag.Parse()
 	if *out == "" || *files == "" {
@@ -91,7 +92,13 @@ func main() {
 				stmtMode = true
 			}
 		}
-		code, err := rewriteFile(src, chanFields[dir], stmtMode)
+		var regionFuncs []string
+		for _, rf := range strings.Split(*region, ",") {
+			if f, fn, ok := strings.Cut(strings.TrimSpace(rf), ":"); ok && f == rel {
+				regionFuncs = append(regionFuncs, fn)
+			}
+		}
+		code, err := rewriteFile(src, chanFields[dir], stmtMode, regionFuncs)
 		if err != nil {
 			die("%s: %v", rel, err)
 		}
@@ -181,13 +188,14 @@ func sel(x, name string) ast.Expr { return &ast.SelectorExpr{X: ast.NewIdent(x),
 
 func call(fn ast.Expr, args ...ast.Expr) *ast.CallExpr { return &ast.CallExpr{Fun: fn, Args: args} }
 
-func rewriteFile(path string, chanFields map[string]bool, stmtMode bool) ([]byte, error) {
+func rewriteFile(path string, chanFields map[string]bool, stmtMode bool, regionFuncs []string) ([]byte, error) {
 	fset := token.NewFileSet()
 	f, err := parser.ParseFile(fset, path, nil, parser.ParseComments|parser.SkipObjectResolution)
 	if err != nil {
 		return nil, err
 	}
 	r := &rewriter{fset: fset, chanFields: chanFields, stmtMode: stmtMode}
+	regionsDone := 0
 	// imports
 	for _, imp := range f.Imports {
 		if p, _ := strconv.Unquote(imp.Path.Value); p == "sync" {
@@ -203,6 +211,15 @@ func rewriteFile(path string, chanFields map[string]bool, stmtMode bool) ([]byte
 			r.pushScope(fd.Type)
 			r.block(fd.Body)
 			r.popScope()
+			for _, rf := range regionFuncs {
+				if fd.Name.Name == rf {
+					r.needRT = true
+					regionsDone++
+					enter := &ast.ExprStmt{X: call(sel("verifrt", "RegionEnter"))}
+					exit := &ast.DeferStmt{Call: call(sel("verifrt", "RegionExit"))}
+					fd.Body.List = append([]ast.Stmt{enter, exit}, fd.Body.List...)
+				}
+			}
 		} else if gd, ok := d.(*ast.GenDecl); ok {
 			// function literals in package-level var initialisers
 			for _, sp := range gd.Specs {
@@ -216,6 +233,9 @@ func rewriteFile(path string, chanFields map[string]bool, stmtMode bool) ([]byte
 	}
 	if r.err != nil {
 		return nil, r.err
+	}
+	if regionsDone != len(regionFuncs) {
+		return nil, fmt.Errorf("region function(s) %v not found", regionFuncs)
 	}
 	if r.needRT {
 		addImport(f, "verifrt", rtImport)
